@@ -2,7 +2,7 @@
    Only theorem statements closed by `exact`, each followed by Print Assumptions. *)
 From Coq Require Import Permutation.
 From Names Require Import Order.
-From Object Require Import ObjSeg ObjSegProofs Store StoreSpec StoreMem StoreBolt StoreThm Defects Fetch FetchStream FetchSafe FetchLive FetchBudget FetchCheck.
+From Object Require Import ObjSeg ObjSegProofs ObjSegModel Store StoreSpec StoreMem StoreBolt StoreThm Defects Fetch FetchStream FetchSafe FetchLive FetchBudget FetchCheck.
 Open Scope nat_scope.
 
 Definition S8000 : nat := N.to_nat pSegmentSize.
@@ -29,6 +29,16 @@ Proof.
           (conj (fun i H => chunk_size_full S HS d i H) (fun i H1 H2 => chunk_size_last S HS d i H1 H2))).
 Qed.
 Print Assumptions segment_count_and_sizes.
+
+(* the Produce model satisfies the oracle that every run evaluates on the IMPLEMENTATION's store dump: returned name
+   name/v=ver, packets name/v=ver/seg=i carrying the chunks in order, FinalBlockId = last chunk index on every packet, one
+   metadata packet name/32=metadata/v=ver/seg=0 naming name/v=ver, nothing else *)
+Theorem produce_satisfies_oracle : forall S nm ver (content : wire) ret pkts, 0 < S ->
+  (N.of_nat (length (segments S content)) < two64)%N ->
+  produce S nm ver content = POk ret pkts ->
+  produce_obs_ok S nm ver (concat content) ret pkts = true.
+Proof. exact (fun S nm ver content ret pkts HS => produce_model_ok S HS nm ver content ret pkts). Qed.
+Print Assumptions produce_satisfies_oracle.
 
 (* the pinned tree returned a wrong name when the caller's name slice had spare capacity (fixed in /repo) *)
 Theorem produce_alias_refuted_before_fix :
